@@ -137,11 +137,25 @@ def make(rng, entry, charset='E', nfaults=None, multi=None, alphabet=V.PLAIN, fa
                 s_['lead'] = rng.choice([1, 2])
             else:
                 s_['trail'] = 1
+            s_['reader_error'] = True
             tfaults.append((-1, 'envelope_seg_reader_error'))
+    if trailer_faults and rng.random() < 0.1:
+        # interchanges from different senders in one file
+        isas = [s_ for s_ in doc if s_['id'] == 'ISA' and len(s_['vals']) >= 8]
+        if len(isas) > 1:
+            isas[-1]['vals'][5] = 'OTHERSENDER    '
+            tfaults.append((-1, 'several_senders'))
+    if trailer_faults and rng.random() < 0.06:
+        # a set of another transaction type inside the group (its ST01 is not what the group's map expects)
+        sts = [s_ for s_ in doc if s_['id'] == 'ST' and len(s_['vals']) >= 2]
+        if sts:
+            s_ = rng.choice(sts)
+            s_['vals'][0] = '834' if s_['vals'][0] != '834' else '835'
+            tfaults.append((-1, 'st01_foreign'))
     if trailer_faults and rng.random() < 0.12:
         # structural damage between the envelope segments: a stray segment outside any set, or a trailer that never comes
-        kind = rng.choice(['junk_gap', 'junk_gap', 'drop_se', 'drop_ge'])
-        want = {'junk_gap': ('ISA', 'GS', 'SE', 'GE', 'IEA'), 'drop_se': ('SE',), 'drop_ge': ('GE',)}[kind]
+        kind = rng.choice(['junk_gap', 'junk_gap', 'drop_se', 'drop_ge', 'drop_st'])
+        want = {'junk_gap': ('ISA', 'GS', 'SE', 'GE', 'IEA'), 'drop_se': ('SE',), 'drop_ge': ('GE',), 'drop_st': ('ST',)}[kind]
         i = rng.choice([k for k, s_ in enumerate(doc) if s_['id'] in want])
         if kind == 'junk_gap':
             doc.insert(i + 1, {'id': 'ZZZ', 'vals': ['1'], 'uid': -1})
